@@ -215,9 +215,18 @@ def coq_setup():
 
 def coq_make(targets, timeout=1500):
     """Full .vo build of the given targets (relative to coq/). -k so that one
-    broken proof does not hide the others. Returns (rc, log)."""
-    coq_setup()
-    return sh(["make", "-k", "-j%d" % NPROC] + list(targets), cwd=COQ, timeout=timeout)
+    broken proof does not hide the others. Returns (rc, log).  Serialised with
+    a file lock so that concurrent checks do not rewrite the Makefile under
+    each other."""
+    import fcntl
+    os.makedirs(BUILD, exist_ok=True)
+    with open(os.path.join(BUILD, ".coq.lock"), "w") as lk:
+        fcntl.flock(lk, fcntl.LOCK_EX)
+        try:
+            coq_setup()
+            return sh(["make", "-k", "-j%d" % NPROC] + list(targets), cwd=COQ, timeout=timeout)
+        finally:
+            fcntl.flock(lk, fcntl.LOCK_UN)
 
 
 FORBIDDEN = re.compile(r"\b(Admitted|admit|Axiom|Parameter|Conjecture|Admit Obligations|"
@@ -225,9 +234,30 @@ FORBIDDEN = re.compile(r"\b(Admitted|admit|Axiom|Parameter|Conjecture|Admit Obli
                        r"bypass_check|type-in-type|impredicative-set)\b")
 
 
-def coq_forbidden_scan():
+def coq_cone(start):
+    """Files (under coq/) that `start` (relative .v path) transitively requires
+    through `From MV Require ...` lines."""
+    seen, todo = set(), [start]
+    while todo:
+        f = todo.pop()
+        if f in seen or not os.path.exists(os.path.join(COQ, f)):
+            continue
+        seen.add(f)
+        txt = re.sub(r"\(\*.*?\*\)", "", open(os.path.join(COQ, f), errors="replace").read(), flags=re.S)
+        for m in re.finditer(r"From\s+MV\s+Require\s+(?:Import\s+|Export\s+)?(.*?)\.(?:\s|$)", txt, flags=re.S):
+            for mod in m.group(1).split():
+                todo.append(mod.replace(".", "/") + ".v")
+        for m in re.finditer(r"Require\s+(?:Import\s+|Export\s+)?(.*?)\.(?:\s|$)", txt, flags=re.S):
+            for mod in m.group(1).split():
+                if mod.startswith("MV."):
+                    todo.append(mod[3:].replace(".", "/") + ".v")
+    return sorted(seen)
+
+
+def coq_forbidden_scan(files=None):
     bad = []
-    for p in glob.glob(os.path.join(COQ, "**", "*.v"), recursive=True):
+    paths = [os.path.join(COQ, f) for f in files] if files else glob.glob(os.path.join(COQ, "**", "*.v"), recursive=True)
+    for p in paths:
         txt = re.sub(r"\(\*.*?\*\)", "", open(p, errors="replace").read(), flags=re.S)
         for i, line in enumerate(txt.split("\n")):
             if FORBIDDEN.search(line):
@@ -359,10 +389,12 @@ class Check:
     def prove(self, extra_targets=(), theorems_file=None, timeout=1500):
         """Build Properties_<ID>.vo (and everything it depends on) from
         scratch for that file, count its theorems and their assumptions."""
-        bad = coq_forbidden_scan()
+        pf = theorems_file or "Properties_%s.v" % self.pid
+        cone = coq_cone(pf)
+        self.cov["coq_files_in_cone"] = cone
+        bad = coq_forbidden_scan(cone)
         if bad:
             self.broken.append(("coq:forbidden", "forbidden construct(s): " + "; ".join(bad[:5])))
-        pf = theorems_file or "Properties_%s.v" % self.pid
         src = open(os.path.join(COQ, pf)).read()
         src_nc = re.sub(r"\(\*.*?\*\)", "", src, flags=re.S)
         thms = re.findall(r"^\s*(?:Theorem|Corollary)\s+([\w']+)", src_nc, flags=re.M)
